@@ -170,6 +170,7 @@ type FuncResult struct {
 	Trusted     bool
 	BodyHash    string
 	Behavior    string
+	Warnings    []string
 	declNames   map[string]bool
 	symCache    map[*T]map[string]bool
 	mu          sync.Mutex
@@ -267,7 +268,8 @@ func verifyFuncBeh(prog *Program, key string, beh *Behavior) (res *FuncResult) {
 			}
 		}
 		if !found {
-			res.Drift = append(res.Drift, fmt.Sprintf("%s: contract names loop %d but the function has %d loops", key, n, len(li)))
+			// clauses for a loop that no longer exists are ignored (reported in the evidence), the remaining loops keep theirs
+			res.Warnings = append(res.Warnings, fmt.Sprintf("%s: contract names loop %d but the function has %d loops", key, n, len(li)))
 		}
 	}
 	// parameters as fresh constants
@@ -398,6 +400,7 @@ func verifyFuncBeh(prog *Program, key string, beh *Behavior) (res *FuncResult) {
 			res.Drift = append(res.Drift, fmt.Sprintf("%s: bind %q matches no call expression", key, b.CallText))
 		}
 	}
+	res.Warnings = append(res.Warnings, keysOf(ex.warnings)...)
 	res.Unmodelled = keysOf(ex.unmodelled)
 	res.Stores = keysOf(ex.stores)
 	res.Assumptions = keysOf(ex.assumptions)
